@@ -48,7 +48,7 @@ partial def tyOfJson (j : Json) : Except String Ty := do
         | "plain" => pure MKind.plain
         | "optional" => pure MKind.optional
         | "fixed" => do pure (MKind.fixed (← getNat m "size"))
-        | "dyn" => do pure (MKind.dyn (← getStr m "sizer"))
+        | "dyn" => do pure (MKind.dyn (← getStr m "sizer") ((m.getObjValAs? Nat "shift").toOption.getD 0))
         | "limited" => do pure (MKind.limited (← getStr m "sizer") (← getNat m "size"))
         | "greedy" => pure MKind.greedy
         | s => throw s!"bad member kind {s}")
